@@ -40,8 +40,23 @@ REJECTS = [
 ]
 
 
+REAL_REJECTS = [   # on real classes, with the overload sets of the working tree's metatypes
+    ("real-true-overload-valueChanged", "QSpinBox", "onValueChanged: function(v: int) { console.log(v) }"),
+    ("real-true-overload-valueChanged-double", "QDoubleSpinBox", "onValueChanged: console.log(1)"),
+    ("real-too-many-parameters-clicked", "QPushButton", "onClicked: function(a: bool, b: bool) { console.log(a) }"),
+    ("real-incompatible-parameter-toggled", "QCheckBox", "onToggled: function(a: QString) { console.log(a) }"),
+    ("real-slot-is-not-a-signal", "QLineEdit", "onClear: console.log(1)"),
+    ("real-too-many-parameters-returnPressed", "QLineEdit", "onReturnPressed: function(a: int) { console.log(a) }"),
+]
+
+
 def gen_case(rng, params, index):
     if rng.chance(0.12):
+        if rng.chance(0.3):
+            kind, cls, line = rng.choice(REAL_REJECTS)
+            qml = ("import qmluic.QtWidgets\nQWidget {\n    id: root\n    QVBoxLayout {\n        %s {\n            id: r1\n            %s\n        }\n"
+                   "        SimWidget { id: w2; onFired: w2.reset() }\n    }\n}\n" % (cls, line))
+            return {"kind": "rejection", "shape": kind, "qml": qml, "type_name": "Doc"}
         kind, line = rng.choice(REJECTS)
         qml = ("import qmluic.QtWidgets\nQWidget {\n    id: root\n    QVBoxLayout {\n        SimWidget {\n            id: w1\n            %s\n        }\n"
                "        SimWidget { id: w2; onFired: w1.reset() }\n    }\n}\n" % line)
